@@ -60,6 +60,38 @@ func Globals() *Scope {
 	bi("list", func(m *Machine, a []MalType) (MalType, *Thrown) {
 		return List{Val: append([]MalType{}, a...)}, nil
 	})
+	// (hash-map k v ...): keys are strings or keywords
+	bi("hash-map", func(m *Machine, a []MalType) (MalType, *Thrown) {
+		if len(a)%2 != 0 {
+			return berr()
+		}
+		out := map[string]MalType{}
+		for i := 0; i < len(a); i += 2 {
+			k, ok := a[i].(string)
+			if !ok {
+				return berr()
+			}
+			out[k] = a[i+1]
+		}
+		return HashMap{Val: out}, nil
+	})
+	// (apply f a b ... coll): f applied to a, b, ... followed by the elements of the last argument (a list, a vector or nil)
+	bi("apply", func(m *Machine, a []MalType) (MalType, *Thrown) {
+		if len(a) < 2 {
+			return berr()
+		}
+		args := append([]MalType{}, a[1:len(a)-1]...)
+		switch last := a[len(a)-1].(type) {
+		case nil:
+		case List:
+			args = append(args, last.Val...)
+		case Vector:
+			args = append(args, last.Val...)
+		default:
+			return berr()
+		}
+		return m.Apply(a[0], args)
+	})
 	bi("count", func(m *Machine, a []MalType) (MalType, *Thrown) {
 		if len(a) != 1 {
 			return berr()
